@@ -74,15 +74,19 @@ pub fn iso_case(ctx: &Ctx, input: &Input, want: Area) -> CaseResult {
         }
     };
     let mut iso = Iso::new(&da, &db);
+    // known findings of *any* property are stepped over so that the
+    // comparison continues behind them; only this property's are reported
     iso.tolerate = ctx
         .known
         .iter()
-        .filter(|k| k.property == ctx.prop && k.status == "known" && !ctx.strict)
+        .filter(|k| k.status == "known" && !(ctx.strict && k.property == ctx.prop))
         .map(|k| k.signature.clone())
         .collect();
     let r = iso.run_full();
     for (sig, (_n, ex)) in iso.tolerated_hits.iter() {
-        out.known.push(Failure::new(sig.clone(), ex.clone()));
+        if ctx.is_known(sig).is_some() {
+            out.known.push(Failure::new(sig.clone(), ex.clone()));
+        }
     }
     if iso.canon.dead_ops > 0 {
         out.label("dead-code-elided");
@@ -105,6 +109,31 @@ pub fn iso_case(ctx: &Ctx, input: &Input, want: Area) -> CaseResult {
             } else {
                 out.label(format!("skip:mismatch-in-other-area:{}", m.signature));
                 return Ok(out);
+            }
+        }
+    }
+    // second mode: the same comparison after the GC pass (the output is a
+    // sub-module; whatever survives must be unchanged and not retargeted)
+    if let Ok(Some(g)) = wal::roundtrip(&p.bytes, wal::Cfg::plain(), true) {
+        if let Ok(dg) = decode(&g) {
+            let mut iso2 = Iso::new(&da, &dg);
+            iso2.tolerate = iso.tolerate.clone();
+            let r2 = iso2.run_gc();
+            for (sig, (_n, ex)) in iso2.tolerated_hits.iter() {
+                if ctx.is_known(sig).is_some() && !out.known.iter().any(|k| k.signature == *sig) {
+                    out.known.push(Failure::new(sig.clone(), ex.clone()));
+                }
+            }
+            out.label("mode:gc-compared");
+            if let Err(m) = r2 {
+                if m.area == want {
+                    return Err(Failure::new(
+                        format!("after-gc:{}", m.signature),
+                        format!("after the GC pass: {} [{}]", m.detail, p.origin),
+                    ));
+                } else {
+                    out.label(format!("skip:gc-mismatch-in-other-area:{}", m.signature));
+                }
             }
         }
     }
